@@ -1,7 +1,7 @@
 #!/usr/bin/env python3
 """Runs the quick tier of the owning property (and listed alternates) against every seeded change and writes seeded/KILLTABLE.md."""
 import glob, json, os, re, subprocess, sys
-ALT = {"C01-2": ["C12"], "C01-4": ["C12", "C11"], "C11-1": ["C12"], "C11-3": ["C12"], "C04-3": ["C05"], "C13-2": ["C19"], "C12-4": ["C11"], "C05-6": ["C15"], "C04-5": ["C05"], "C14-6": ["C16"], "C14-8": ["C16"], "C16-8": ["C13"], "C01-8": ["C10"], "C04-8": ["C05"], "C01-10": ["C12"], "C02-9": ["C10", "C11"], "C04-9": ["C05", "C15"], "C18-9": ["C17"], "C14-9": ["C16"], "C19-10": ["C17"], "C01-9": ["C11"], "C04-12": ["C05"], "C16-11": ["C14", "C06"], "C11-12": ["C12", "C01"], "C02-12": ["C03"], "C13-14": ["C19"], "C16-14": ["C15"], "C14-14": ["C06"], "C01-15": ["C12"], "C02-16": ["C10"], "C05-16": ["C03"], "C11-15": ["C12"], "C18-15": ["C17"], "C17-15": ["C02"]}
+ALT = {"C01-2": ["C12"], "C01-4": ["C12", "C11"], "C11-1": ["C12"], "C11-3": ["C12"], "C04-3": ["C05"], "C13-2": ["C19"], "C12-4": ["C11"], "C05-6": ["C15"], "C04-5": ["C05"], "C14-6": ["C16"], "C14-8": ["C16"], "C16-8": ["C13"], "C01-8": ["C10"], "C04-8": ["C05"], "C01-10": ["C12"], "C02-9": ["C10", "C11"], "C04-9": ["C05", "C15"], "C18-9": ["C17"], "C14-9": ["C16"], "C19-10": ["C17"], "C01-9": ["C11"], "C04-12": ["C05"], "C16-11": ["C14", "C06"], "C11-12": ["C12", "C01"], "C02-12": ["C03"], "C13-14": ["C19"], "C16-14": ["C15"], "C14-14": ["C06"], "C01-15": ["C12"], "C02-16": ["C10"], "C05-16": ["C03"], "C11-15": ["C12"], "C18-15": ["C17"], "C17-15": ["C02"], "C13-15": ["C19"]}
 rows = []
 only = sys.argv[1] if len(sys.argv) > 1 else None  # regex over seed names: re-run these and merge into the table
 old = {}
